@@ -155,6 +155,15 @@ T = {
  "C16-9": ("C16", "011957e", "a batch containing a fetched log the join rejects (writer's head linking to a non-writer's entry)", ["C16", "C10"], "VIOLATION (native replay) by VerifC10Mixed (event-content oracle)"),
  "C18-9": ("C18", "011957e", "instance Close while a Create's store constructor is running", ["C18"], "VIOLATION (native replay) by VerifC18CloseDuringOpen"),
  "C19-7": ("C19", "011957e", "Load of a log with two cached heads that share history", ["C19"], "VIOLATION (native replay) by VerifC19History"),
+ # round 15 (base 011957e)
+ "C01-9": ("C01", "011957e", "two concurrent heads signed with the same key (one identity on two devices) passed to Sync in one call", ["C01"], "VIOLATION (native replay) by VerifC01Grouping"),
+ "C03-8": ("C03", "011957e", "a write list holding an entry that is not a full id (empty string, truncated id)", ["C03"], "VIOLATION (native replay) by VerifC03CanAppend (concrete list entries)"),
+ "C04-8": ("C04", "011957e", "an entry carrying another database's log id and naming the local replica's identity id", ["C04"], "VIOLATION (native replay) by VerifC04ForeignChain (foreign entries by the local identity)"),
+ "C05-9": ("C05", "011957e", "a local write landing while replicationLoadComplete runs, then a stop before another write or merge", ["C05"], "VIOLATION by VerifC05WriteDuringMerge"),
+ "C06-9": ("C06", "011957e", "Put(k, buf), the caller reuses buf, a later index update", ["C06"], "VIOLATION (native replay) by VerifC06EdgeKeys (value ownership)"),
+ "C13-8": ("C13", "011957e", "snapshot of a log with a fork (two concurrent writers), loaded by a fresh instance", ["C13"], "VIOLATION (native replay) by VerifC13Snapshot"),
+ "C17-7": ("C17", "011957e", "two goroutines calling AddOperation with unbuffered progress channels read in a fixed order", ["C17"], "VIOLATION (deadlock) by VerifC17Callbacks"),
+ "C20-9": ("C20", "011957e", "a remote peer subscribes, unsubscribes and subscribes again under one live pubsubraw watcher", ["C20"], "VIOLATION (interpreter-only) by VerifC20RawPeers"),
 }
 for seed, (prop, base, needs, by, note) in T.items():
     d = os.path.join(V, "seeded", seed)
